@@ -275,7 +275,7 @@ impl<'buf, IO: Io> Connection<'_, 'buf, IO> {
         debug_assert!(found, "outbound packet no longer tracked");
     }
 
-    async fn perform_outbound_step(
+    pub(super) async fn perform_outbound_step(
         &mut self,
         step: OutboundStep,
         now: Instant,
